@@ -423,11 +423,7 @@ func c05ExecAdd(ctx context.Context, r c05AddRes) c05AddRes {
 	for _, f := range r.files {
 		m[f.name.String()] = int(f.count)
 	}
-	t0 := time.Now()
 	r.err = r.h.st.AddTableFilesToManifest(ctx, m, verifMNoAddrs)
-	if d := time.Since(t0); d > 500*time.Millisecond && os.Getenv("VERIFM_DEBUG") != "" {
-		fmt.Printf("SLOWADD %v handle=%d upstream=%s err=%v\n", d, r.h.idx, c05Fmt(true, r.h.st.upstream), r.err)
-	}
 	return r
 }
 
